@@ -33,6 +33,8 @@ FROZEN = ('FrozenVec', 'FrozenAngle', 'FrozenMatrix')
 MUTABLE = ('Vec', 'Angle', 'Matrix')
 BASES = ('VecBase', 'AngleBase', 'MatrixBase')
 MUTATORS = {'_mat_mul': 'recv', '_vec_rot': 'arg', '_to_angle': 'arg'}
+PRIVATE_SLOTS = {'_x', '_y', '_z', '_pitch', '_yaw', '_roll', '_aa', '_ab', '_ac', '_ba', '_bb', '_bc', '_ca', '_cb', '_cc'}
+seen_slot_stores: set = set()
 
 
 def is_360(n: ast.AST) -> bool:
@@ -237,6 +239,7 @@ def run(ctx: Any, prog: Program) -> None:
     ctx.not_decided += ['"parses back within 5e-7" (an arithmetic consequence of 6 decimals, not a code-shape fact)',
                         'value-level behaviour of parse_vec_str', 'pickle round trips (reduce helpers are checked for freshness only)']
     ctx.assumptions += ['x % 360.0 % 360.0 lies in [0, 360) for every finite float x (IEEE-754 fmod semantics of Python floats)']
+    seen_slot_stores.clear()
     ctx.rule('C05.G1', 'every store to an angle field is double-modulo normalised, a literal in [0,360) or a same-field copy', floor=40)
     ctx.rule('C05.G2', 'frozen vectors/angles/matrices are never mutated; in-place mutators only touch fresh or mutable-only targets', floor=40)
     ctx.rule('C05.G3', 'copy/__copy__/__deepcopy__/freeze/thaw of mutable classes construct a new object', floor=10)
@@ -635,6 +638,28 @@ def run(ctx: Any, prog: Program) -> None:
                     ok, why = fresh_expr(fn, owner, tgt)
                     ctx.check('C05.G2', ok, mt, c, f'in-place mutator {c.func.attr} applied to `{U(tgt)}`: {why}', func=qual,
                               text=f'{c.func.attr} on {U(tgt)[:50]}')
+            # a store to a private slot of an object other than self (`axis._x = ...`): the object must be one this function made - an
+            # argument (or an element of a tuple of arguments) may be a frozen object of the caller
+            for n in walk_no_nested(fn):
+                tgts_ = (n.targets if isinstance(n, ast.Assign) else [n.target]) if isinstance(n, (ast.Assign, ast.AugAssign, ast.AnnAssign)) else []
+                for t_ in [e_ for t0 in tgts_ for e_ in (t0.elts if isinstance(t0, (ast.Tuple, ast.List)) else [t0])]:
+                    if isinstance(t_, ast.Attribute) and t_.attr in PRIVATE_SLOTS and isinstance(t_.value, ast.Name) and t_.value.id not in ('self', 'cls'):
+                        nm_ = t_.value.id
+                        if mname in MUTATORS and nm_ in {a.arg for a in fn.args.args}:
+                            continue            # the designated output parameter of a private mutator (its call sites are checked above)
+                        # a loop variable stands for the elements of what it ranges over
+                        lp_ = next((l for l in walk_no_nested(fn) if isinstance(l, ast.For) and isinstance(l.target, ast.Name) and l.target.id == nm_ and any(n is x for x in ast.walk(l))), None)
+                        if lp_ is not None and isinstance(lp_.iter, (ast.Tuple, ast.List)):
+                            res_ = [fresh_expr(fn, owner, e_) for e_ in lp_.iter.elts]
+                            ok, why = all(r[0] for r in res_), '; '.join(r[1] for r in res_ if not r[0])
+                        else:
+                            ok, why = fresh_expr(fn, owner, ast.Name(id=nm_, ctx=ast.Load()))
+                        key_ = (qual, nm_)
+                        if key_ in seen_slot_stores:
+                            continue
+                        seen_slot_stores.add(key_)
+                        ctx.check('C05.G2', ok, mt, n, f'{qual} stores into `{nm_}.{t_.attr}` directly: {why} - when the caller passed a FrozenVec / FrozenAngle / FrozenMatrix the private slots are written all the same, '
+                                  'and the frozen value (its hash, its place in a dict) changes under the caller', func=qual, text=f'slot store on `{nm_}` only if this function made it')
             # `x @= y` on a local matrix: target must be fresh too
             for n in walk_no_nested(fn):
                 if isinstance(n, ast.AugAssign) and isinstance(n.op, ast.MatMult) and isinstance(n.target, ast.Name) and n.target.id != 'self':
@@ -1016,6 +1041,7 @@ def check_format_float(ctx: Any, mod: Any, ff: Any, prog: Any) -> None:
 
 
 MUTANTS = [
+    {'id': 'from_basis_rescales_arguments', 'file': 'math.py', 'find': "        mat = cls.__new__(cls)\n        mat._aa, mat._ab, mat._ac = x.norm()", 'replace': "        for axis in (x, y, z):\n            axis._x = axis._x + 0\n        mat = cls.__new__(cls)\n        mat._aa, mat._ab, mat._ac = x.norm()", 'expect': 'C05.G2', 'note': 'round 12'},
     {'id': 'from_str_returns_its_argument', 'file': 'math.py', 'find': "        pitch, yaw, roll = Py_parse_vec_str(val, pitch, yaw, roll)\n        return cls(pitch, yaw, roll)", 'replace': "        if isinstance(val, cls):\n            return val\n        pitch, yaw, roll = Py_parse_vec_str(val, pitch, yaw, roll)\n        return cls(pitch, yaw, roll)", 'expect': 'C05.G3'},
     {'id': 'with_axes_single_modulo_setattr', 'file': 'math.py', 'find': "    def join(self, delim: str = ', ') -> str:\n        \"\"\"Return a string with all numbers joined by the passed delimiter.\n\n        This strips off the .0 if no decimal portion exists.\n        \"\"\"\n        return f'{format_float(self._pitch)}", 'replace': "    def _set_axis(self, slot: str, val: float) -> None:\n        value = _coerce_float(val)\n        if not 0.0 <= value < 360.0:\n            value %= 360.0\n        setattr(self, slot, value)\n\n    def join(self, delim: str = ', ') -> str:\n        \"\"\"Return a string with all numbers joined by the passed delimiter.\n\n        This strips off the .0 if no decimal portion exists.\n        \"\"\"\n        return f'{format_float(self._pitch)}", 'expect': 'C05.G1', 'refuse_ok': True},
     {'id': 'format_float_builtin_general_spec', 'file': 'math.py', 'find': "    result = f'{x:.{places}f}'\n", 'replace': "    result = format(x, f'.{places}g')\n", 'expect': 'C05.G4'},
